@@ -109,6 +109,14 @@ func tsBuild(id int, tc *tsCase) (*proto.Case, []int, []int) {
 			}
 			c.Steps = append(c.Steps, proto.Step{M: "textDocument/didChange", N: true,
 				P: json.RawMessage(fmt.Sprintf(`{"textDocument":{"uri":%s,"version":%d},"contentChanges":[%s]}`, jstr(uri(op.U)), i+2, strings.Join(chs, ",")))})
+		case "mixed":
+			chs := []string{fmt.Sprintf(`{"text":%s}`, jstr(renderDoc(op.T)))}
+			for _, ch := range op.Chg {
+				chs = append(chs, fmt.Sprintf(`{"range":{"start":{"line":%d,"character":%d},"end":{"line":%d,"character":%d}},"text":%s}`,
+					ch.S[0], ch.S[1], ch.E[0], ch.E[1], jstr(renderDoc(ch.T))))
+			}
+			c.Steps = append(c.Steps, proto.Step{M: "textDocument/didChange", N: true,
+				P: json.RawMessage(fmt.Sprintf(`{"textDocument":{"uri":%s,"version":%d},"contentChanges":[%s]}`, jstr(uri(op.U)), i+2, strings.Join(chs, ",")))})
 		case "full":
 			c.Steps = append(c.Steps, proto.Step{M: "textDocument/didChange", N: true,
 				P: json.RawMessage(fmt.Sprintf(`{"textDocument":{"uri":%s,"version":%d},"contentChanges":[{"text":%s}]}`, jstr(uri(op.U)), i+2, jstr(renderDoc(op.T))))})
